@@ -125,47 +125,59 @@ pub fn bfs<S, O, FO, FS>(
             rep.cap_hit(&format!("bfs wall cap at depth {depth}"));
             break;
         }
-        // expand the whole level in parallel
-        let results: Vec<(usize, O, Step<S>)> = frontier
-            .par_iter()
-            .flat_map_iter(|&idx| {
-                let s = &nodes[idx].state;
-                let step = &step;
-                ops(s)
-                    .into_iter()
-                    .map(move |o| {
-                        let st = step(s, &o);
-                        (idx, o, st)
-                    })
-                    .collect::<Vec<_>>()
-            })
-            .collect();
+        // expand the level in parallel, chunk by chunk (results of a chunk are
+        // de-duplicated before the next chunk is expanded, so memory stays at
+        // chunk x alphabet instead of frontier x alphabet)
         let mut next_frontier = vec![];
-        for (idx, o, st) in results {
-            transitions += 1;
-            *rep.classes.entry(st.class.clone()).or_insert(0) += 1;
-            for (k, what) in st.violations {
-                let hist = history_of(&nodes, idx, Some(&o));
-                rep.violation(&k, what, json!({ "history": hist }));
+        let chunk = 1024usize;
+        let mut pos = 0usize;
+        while pos < frontier.len() {
+            if t0.elapsed() > cfg.wall_cap {
+                rep.cap_hit(&format!("bfs wall cap inside depth {depth}"));
+                break;
             }
-            let is_new = !cfg.dedup || !seen.contains_key(&st.key);
-            if is_new {
-                if nodes.len() >= cfg.max_states {
-                    rep.cap_hit(&format!("bfs state cap {} at depth {}", cfg.max_states, depth + 1));
-                    continue;
-                }
-                let n = nodes.len();
-                if rep.wants_sample() && (n % 97 == 1 || n < 3) {
+            let end = (pos + chunk).min(frontier.len());
+            let results: Vec<(usize, O, Step<S>)> = frontier[pos..end]
+                .par_iter()
+                .flat_map_iter(|&idx| {
+                    let s = &nodes[idx].state;
+                    let step = &step;
+                    ops(s)
+                        .into_iter()
+                        .map(move |o| {
+                            let st = step(s, &o);
+                            (idx, o, st)
+                        })
+                        .collect::<Vec<_>>()
+                })
+                .collect();
+            pos = end;
+            for (idx, o, st) in results {
+                transitions += 1;
+                *rep.classes.entry(st.class.clone()).or_insert(0) += 1;
+                for (k, what) in st.violations {
                     let hist = history_of(&nodes, idx, Some(&o));
-                    rep.sample(|| json!({ "history": hist, "result": st.class }));
+                    rep.violation(&k, what, json!({ "history": hist }));
                 }
-                seen.insert(st.key, n);
-                nodes.push(Node {
-                    state: st.next,
-                    parent: Some((idx, o)),
-                    depth: depth + 1,
-                });
-                next_frontier.push(n);
+                let is_new = !cfg.dedup || !seen.contains_key(&st.key);
+                if is_new {
+                    if nodes.len() >= cfg.max_states {
+                        rep.cap_hit(&format!("bfs state cap {} at depth {}", cfg.max_states, depth + 1));
+                        continue;
+                    }
+                    let n = nodes.len();
+                    if rep.wants_sample() && (n % 97 == 1 || n < 3) {
+                        let hist = history_of(&nodes, idx, Some(&o));
+                        rep.sample(|| json!({ "history": hist, "result": st.class }));
+                    }
+                    seen.insert(st.key, n);
+                    nodes.push(Node {
+                        state: st.next,
+                        parent: Some((idx, o)),
+                        depth: depth + 1,
+                    });
+                    next_frontier.push(n);
+                }
             }
         }
         frontier = next_frontier;
